@@ -203,9 +203,11 @@ def script_coq(s):
     return "([" + "; ".join(eff_coq(e) for e in effs) + f"], {f})"
 
 
-def cfg_coq(a):
+def cfg_coq(a, local=False):
+    """local: the actor is hosted on a ThreadLocalActorSpawner (c_local: link before pre_start, no state reported)"""
     sup = "SupDefault" if a["sup"] is None else f"(SupScript {script_coq(a['sup'])})"
-    return f"mkCfg {script_coq(a['pre'])} {script_coq(a['ps'])} {script_coq(a['stop'])} {sup} {onat(a['link'])}"
+    return (f"mkCfg {script_coq(a['pre'])} {script_coq(a['ps'])} {script_coq(a['stop'])} {sup} {onat(a['link'])} "
+            + ("true" if local else "false"))
 
 
 def op_coq(o):
@@ -216,8 +218,8 @@ def op_coq(o):
             "abort": lambda: f"DL (LAbort {o[1]})", "settle": lambda: "DSettle"}[k]()
 
 
-def world_coq(sc):
-    cfgs = "[" + "; ".join(cfg_coq(a) for a in sc["actors"]) + "]"
+def world_coq(sc, local=False):
+    cfgs = "[" + "; ".join(cfg_coq(a, local) for a in sc["actors"]) + "]"
     msgs = "[" + "; ".join(f"({m}, {script_coq(s)})" for m, s in sorted(sc["msgs"].items())) + "]"
     return f"(init {cfgs} {msgs})"
 
@@ -240,13 +242,17 @@ def orders(n, full=False):
     return [asc, desc, asc[1:] + asc[:1], [i for i in asc for _ in (0, 1)], [i for i in desc for _ in (0, 1)]]
 
 
-def model_expr(sc, order):
+def model_expr(sc, order, local=False):
     o = "[" + "; ".join(str(i) for i in order) + "]"
-    return f"trace_of (run_dops {ROUNDS} {FUEL} {o} {world_coq(sc)} {ops_coq(sc)})"
+    return f"trace_of (run_dops {ROUNDS} {FUEL} {o} {world_coq(sc, local)} {ops_coq(sc)})"
 
 
-def links_coq(sc):
-    return "[" + "; ".join(onat(a["link"]) for a in sc["actors"]) + "]"
+def links_coq(sc, mode="send"):
+    """the oracle's view of the configuration: `<links> <locals>` (two Coq lists: spawn-links, and
+    which actors are thread-local = all of them in the local modes), as check_C04 takes them"""
+    links = "[" + "; ".join(onat(a["link"]) for a in sc["actors"]) + "]"
+    locs = "[" + "; ".join(("false" if mode == "send" else "true") for _ in sc["actors"]) + "]"
+    return links + " " + locs
 
 
 # ------------------------------------------------------------------ views
@@ -299,7 +305,7 @@ TRUSTED = [
     "E1 engine: tokio current_thread runtime with start_paused(true); sleep(1ns) as exact quiescence barrier; harness actors interpret scripts",
     "scenarios whose outcome depends on the poll order of different actors within one settle window (detected by evaluating the model under three poll orders) are excluded from the comparison",
     "thread-local modes: actors run on the ThreadLocalActorSpawner's OS thread; the harness freezes that thread while the driver or the main runtime runs and decides its idleness from /proc/self/task (state S + unchanged scheduling counters in 3 consecutive samples, docs/notes/C01-threadlocal.md); a bound of 10 s per settle ends the run as an infrastructure failure, never as a verdict",
-    "thread-local modes: spawn-linked scenarios are judged by the oracles only (the model links after pre_start, thread_local/inner.rs links before it); check_C04_local = check_C04 with the documented exception that a thread-local child's ActorTerminated never carries the state",
+    "thread-local modes: the model runs with c_local = true (link before pre_start, atomically with the start of pre_start although the real builder crosses to the spawner thread in between; ActorTerminated never carries the non-Send state: check_C04's locals argument)",
 ]
 
 
@@ -340,7 +346,7 @@ def shrink(chk, build, sc, oracle_fn, accept, rounds=25, mode="send"):
         if not vs:
             break
         impl = run_harness(build, "eng_world", [to_line(v, mode) for v in vs], shards=8)
-        exprs = [oracle_fn(len(v["actors"]), links_coq(v), it) for v, it in zip(vs, impl)]
+        exprs = [oracle_fn(len(v["actors"]), links_coq(v, mode), it) for v, it in zip(vs, impl)]
         res = coq_eval(chk.prop + "_shrink", IMPORTS, exprs, scope="nat_scope")
         nxt = None
         for v, r in zip(vs, res):
@@ -359,25 +365,24 @@ def is_linked(sc):
 
 
 def compare_build(chk, scs, build, tag, oracle_fn, accept, what, distinct, mode="send"):
-    """mode "send": every scenario is judged by the oracle and compared with the model.
-    local modes (thread-local hosts, see eng_world.rs): the oracle judges every implementation
-    trace; the model comparison is made only for scenarios without any spawn-link, where the one
-    modelled difference of the thread-local start (link before pre_start instead of after it,
-    no state in ActorTerminated) is unobservable and coq/Loop/World.v applies unchanged."""
+    """every scenario is judged by the oracle and compared with the model; in the local modes
+    (thread-local hosts, see eng_world.rs) the model is run with c_local = true for every actor
+    (coq/Loop/World.v: link before pre_start, no state in ActorTerminated) and the order
+    insensitivity is checked over ALL round-robin orders."""
     shrunk = False
     compared = discarded = 0
     local = mode != "send"
     pre = f"local.{mode}." if local else ""
     impl = run_harness(build, "eng_world", [to_line(sc, mode) for sc in scs], shards=8)
     exprs = []
-    with_model = [(not local) or (not is_linked(sc)) for sc in scs]
+    with_model = [True for sc in scs]
     for sc, it, wm in zip(scs, impl, with_model):
         n = len(sc["actors"])
         if wm:
-            ms = ", ".join(model_expr(sc, o) for o in orders(n, full=local))
-            exprs.append(f"({ms}, {oracle_fn(n, links_coq(sc), it)})")
+            ms = ", ".join(model_expr(sc, o, local) for o in orders(n, full=local))
+            exprs.append(f"({ms}, {oracle_fn(n, links_coq(sc, mode), it)})")
         else:
-            exprs.append(f"(0, {oracle_fn(n, links_coq(sc), it)})")
+            exprs.append(f"(0, {oracle_fn(n, links_coq(sc, mode), it)})")
     res = coq_eval(chk.prop + ("" if not local else "_" + mode.replace("-", "_")), IMPORTS, exprs, scope="nat_scope")
     for idx, (sc, it, r, wm) in enumerate(zip(scs, impl, res, with_model)):
         n = len(sc["actors"])
@@ -414,7 +419,7 @@ def compare_build(chk, scs, build, tag, oracle_fn, accept, what, distinct, mode=
                 distinct.add(json.dumps([mode, view_str(vi)], sort_keys=True))
             continue
         if local:
-            chk.count(pre + "model_compared_unlinked")
+            chk.count(pre + ("model_compared_linked" if is_linked(sc) else "model_compared_unlinked"))
         vs = [per_actor(m, n) for m in models]
         v1 = vs[0]
         if not all(v == v1 for v in vs):
@@ -448,8 +453,8 @@ def compare_build(chk, scs, build, tag, oracle_fn, accept, what, distinct, mode=
 
 
 def gen_local(rng, k, focus):
-    """scenarios for the thread-local hosts: 3 of 5 without any spawn-link (compared with the
-    model), the rest spawn-linked trees and supervision bursts (oracle only)"""
+    """scenarios for the thread-local hosts: 3 of 5 without any spawn-link, the rest spawn-linked
+    trees and supervision bursts (all compared with the model, c_local = true)"""
     if k % 5 < 3:
         return gen_scenario(rng, focus if k % 2 else "mixed", link_p=0.0)
     if k % 5 == 3:
@@ -457,15 +462,12 @@ def gen_local(rng, k, focus):
     return gen_supburst(rng)
 
 
-def run_loop_check(chk, oracle_fn, focus, what, accept=lambda o: o == "true", oracle_local_fn=None, extra_imports=""):
+def run_loop_check(chk, oracle_fn, focus, what, accept=lambda o: o == "true"):
     """oracle_fn(n, links, impl_trace_coq) -> Coq expression; accept(parsed value) -> bool.
-    oracle_local_fn: the oracle for the thread-local modes (default: the same).
+    (`links` is the string "<links> <locals>", see links_coq.)
     quick: default feature build; thorough: also the `async-trait` build of ractor (same scenarios).
     Every build runs the Send scenarios and, on one shared ThreadLocalActorSpawner per scenario,
     the local-adapter and local-native scenarios (eng_world.rs `mode:`)."""
-    global IMPORTS
-    if extra_imports and extra_imports not in IMPORTS:
-        IMPORTS = IMPORTS + " " + extra_imports   # must be in the dependency closure of Properties/<prop>.v
     quick = chk.tier == "quick"
     ok_proofs = chk.proofs()
     factor = 1 if ok_proofs else 4
@@ -520,7 +522,7 @@ def run_loop_check(chk, oracle_fn, focus, what, accept=lambda o: o == "true", or
         compared += c
         discarded += d
         for m in MODES[1:]:
-            c, d = compare_build(chk, lscs[m], build, tag, oracle_local_fn or oracle_fn, accept, what, distinct, mode=m)
+            c, d = compare_build(chk, lscs[m], build, tag, oracle_fn, accept, what, distinct, mode=m)
             compared += c
             discarded += d
     chk.coverage["traces_validated_against_impl"] = compared
@@ -532,11 +534,11 @@ def run_loop_check(chk, oracle_fn, focus, what, accept=lambda o: o == "true", or
                             "non-trivial = the trace reaches at least 3 distinct phases (callback kinds, cancel, park, abort, failure); "
                             "distinct = distinct per-actor views; "
                             "thread-local hosts: per build and per local mode (adapter / native) the same kind of worlds on one "
-                            "ThreadLocalActorSpawner, 3/5 without spawn-links (oracle + model comparison), 2/5 spawn-linked (oracle only)")
+                            "ThreadLocalActorSpawner, 3/5 without spawn-links, 2/5 spawn-linked; oracle + model comparison (c_local) for all")
     chk.coverage["thread_local"] = {
         m: {"scenarios": len(lscs[m]) * len(chk.coverage["builds"]),
             "model_compared_unlinked": chk.hist.get(f"local.{m}.model_compared_unlinked", 0),
-            "oracle_only_linked": chk.hist.get(f"local.{m}.oracle_only_linked", 0),
+            "model_compared_linked": chk.hist.get(f"local.{m}.model_compared_linked", 0),
             "order_sensitive_left_out": chk.hist.get(f"local.{m}.order_sensitive.left_out", 0)}
         for m in MODES[1:]}
     return chk.finish(trusted_base=TRUSTED)
